@@ -234,6 +234,16 @@ func ChildCase(idx int, desc interface{}) {
 }
 
 // ChildDone prints the child's mergeable result.
+// ChildResult returns a result collector for a child that streams violations as they happen.
+func ChildRes(prop string) *res.R {
+	r := res.New(prop)
+	r.OnViolation = func(v res.Violation) {
+		b, _ := json.Marshal(v)
+		os.Stdout.Write(append(append([]byte("@V "), b...), '\n'))
+	}
+	return r
+}
+
 func ChildDone(r *res.R) {
 	os.Stdout.Write([]byte("@RESULT "))
 	r.WriteChild("-")
@@ -264,7 +274,15 @@ func RunBatch(c *Ctx, name string, start, end int, extra interface{}, timeout ti
 		lastIdx := -1
 		var lastDesc json.RawMessage
 		gotResult := false
+		var streamed []res.Violation
 		for _, line := range bytes.Split(cr.Stdout, []byte("\n")) {
+			if bytes.HasPrefix(line, []byte("@V ")) {
+				var v res.Violation
+				if json.Unmarshal(line[3:], &v) == nil {
+					streamed = append(streamed, v)
+				}
+				continue
+			}
 			if bytes.HasPrefix(line, []byte("@CASE ")) {
 				rest := line[6:]
 				sp := bytes.IndexByte(rest, ' ')
@@ -282,6 +300,11 @@ func RunBatch(c *Ctx, name string, start, end int, extra interface{}, timeout ti
 			return deaths
 		}
 		deaths++
+		if !gotResult {
+			for _, v := range streamed {
+				c.R.Violation(v.Sig, v.What, v.Replay)
+			}
+		}
 		if lastIdx < start {
 			// died before the first case: nothing to blame, give up on this batch
 			c.R.Inconcl(fmt.Sprintf("child %s died before its first case (exit %d, timeout=%v): %s", name, cr.Exit, cr.TimedOut, Tail(cr.Stderr, 400)))
